@@ -210,6 +210,16 @@ def _run_shard(arg):
             except BaseException as e:  # the harness itself must not die on a case
                 if isinstance(e, (KeyboardInterrupt, SystemExit)):
                     raise
+                # an exception that a check did not expect and that was raised by the code under test (innermost frame inside
+                # the tapescript package) is a verdict about that code - e.g. a builder that refuses a valid input - and is
+                # reported as a violation; one raised by the harness's own code stays a harness error
+                tb = traceback.extract_tb(e.__traceback__)
+                src = os.path.realpath(getattr(_env(), 'SRC', '/repo'))
+                if tb and os.path.realpath(tb[-1].filename).startswith(os.path.join(src, 'tapescript')):
+                    ctx.violation({'clause': 'the library raised an exception the check does not provide for', 'block': block.name,
+                                   'exc': type(e).__name__, 'where': tb[-1].name},
+                                  f'{type(e).__name__}: {e} (raised in {os.path.basename(tb[-1].filename)}:{tb[-1].name})')
+                    continue
                 raise HarnessError(
                     f'harness exception in block {block.name} case {enc(case)!r}: '
                     + traceback.format_exc())
